@@ -59,6 +59,18 @@ def handle : Handler := fun cmd j =>
     -- model of list(Xpak(path).items())
     let f ← getHex j "file"
     pure (ofExcept ofItems (items f))
+  | "c26.history" => do
+    -- model of a history of data reads on ONE shared file object (Xpak(fileobj)): "reads" = positions in
+    -- keys_dict of the entries read, in the order the real reads happened; "pos" = fd position before the first
+    let f ← getHex j "file"
+    let rs ← getArr j "reads"
+    let p ← getNat j "pos"
+    let idx ← rs.mapM fun (x : Json) => x.getNat?.toOption
+    match keysDict f with
+    | .error e => pure (Json.mkObj [("err", .str (errName e))])
+    | .ok d =>
+      let slots ← idx.mapM fun i => (d[i]?).map (·.2)
+      pure (Json.mkObj [("ok", Json.arr ((readHistory ⟨f, p⟩ slots).map (ofExcept ofVal)).toArray)])
   | "c26.spec" => do
     -- the format and the expected read-back of a mapping, from the specification
     let m ← parseMap j "map"
